@@ -184,7 +184,7 @@ WITNESS_COUNTERS = ["refreshes_full_auth", "refreshes_unauthenticated", "refresh
                     "quiescent_with_recorded_revocation", "missing_kept", "removed_after_holddown", "reappeared",
                     "crashes", "failclosed_corrupt_tombstones", "failclosed_double_write_failure"]
 
-DIRECTED = ["Pend29Present", "Promote31", "PendAbort", "Missing89Kept", "Missing91Gone", "Reappear", "RevokeFull",
+DIRECTED = ["Pend29Present", "Promote31", "PendAbort", "PendReadd", "Missing89Kept", "Missing91Gone", "Reappear", "RevokeFull",
             "RevokeOnly", "RevokeOnlyBait", "RevokeOnlyPend", "DoubleFail", "DoubleFailNoRev", "MarkerMigrated",
             "StaleConfig", "CrashBetween", "CrashBeforeWrites", "TombCorrupt", "StateCorrupt", "UnauthBait",
             "RevokeNoSelfSig", "CollidingRevoke"]
